@@ -301,7 +301,7 @@ pub struct CheckInput<'a> {
 pub fn check(inp: &CheckInput<'_>) -> (Option<Finding>, Stats) {
     let mut stats = Stats::default();
     let finding = walk(inp, &mut stats, false);
-    let has_local = inp.steps.iter().any(|s| matches!(s, Step::Local(_) | Step::SplitLocal(..)));
+    let has_local = inp.steps.iter().any(|s| matches!(s, Step::Local(_) | Step::SplitLocal(..) | Step::LocalRacing(_) | Step::LocalFill { .. }));
     let finding = finding.map(|(mut f, at)| {
         if has_local && f.rule != "harness-no-mark" {
             let mut scratch = Stats::default();
@@ -350,17 +350,22 @@ fn walk(inp: &CheckInput<'_>, stats: &mut Stats, include_local: bool) -> Option<
 
     enum Op<'a> {
         L(&'a LocalOp),
+        /// `n` local writes of a `LocalFill` (map: updates of the keys 100.. with values from `first`).
+        Fill(u64, u32),
         N(&'a Note),
     }
 
     for (i, step) in steps.iter().enumerate() {
         let ops: Vec<Op<'_>> = match step {
             Step::N(n) => vec![Op::N(n)],
-            Step::Local(op) => vec![Op::L(op)],
+            Step::Local(op) | Step::LocalRacing(op) => vec![Op::L(op)],
+            Step::LocalFill { first, n } => vec![Op::Fill(*first, *n)],
             Step::SplitLocal(n, op) => vec![Op::L(op), Op::N(n)],
-            // Neither the loss of the local handle nor the loss of the consumer of the output is a
-            // notification: the fold and the demanded callbacks are unaffected.
-            Step::Barrier | Step::DropHandle | Step::OutputFault => vec![],
+            // Neither the loss of the local handle nor the loss / the stalling of the consumer of the
+            // output is a notification: the fold and the demanded callbacks are unaffected. (`Stop`
+            // and `InputFault` end what the walker can follow: the parts that use them cut the
+            // script there.)
+            Step::Barrier | Step::DropHandle | Step::OutputFault | Step::OutputGate(_) | Step::Stop { .. } | Step::InputFault(_) => vec![],
             Step::Reconnected => {
                 // The downlink reads from a new connection: whatever link it had is gone, although
                 // no notification said so. "Received since it linked" now refers to the next
@@ -382,6 +387,20 @@ fn walk(inp: &CheckInput<'_>, stats: &mut Stats, include_local: bool) -> Option<
                         stats.locals_while_linked += 1;
                         if include_local {
                             fold.apply_local(l);
+                        }
+                    }
+                    continue;
+                }
+                Op::Fill(first, n) => {
+                    if link != Link::Unlinked && !terminated {
+                        stats.locals_while_linked += n as u64;
+                        if include_local {
+                            for j in 0..n {
+                                fold.apply_local(&match mode {
+                                    Mode::Map => LocalOp::Upd(100 + j as i32, first + j as u64),
+                                    _ => LocalOp::SetV(first + j as u64),
+                                });
+                            }
                         }
                     }
                     continue;
